@@ -37,6 +37,8 @@ class Intercepts:
     def virtual_implements(self, tid, itype):
         if tid == "op:ctx":
             return set(itype["imethods"]) <= {"Deadline", "Done", "Err", "Value"}
+        if tid == "op:xof":
+            return set(itype["imethods"]) <= {"Write", "Read"}
         return False
 
 
